@@ -106,6 +106,7 @@ def graft_histories(ck, n=5):
     keys = [k for k in keys if absstate.data_ids(k) == set(range(n)) and len(k[0]) >= 2]
     data = gridoracle.data_from_tables(gridoracle.int_tables(n, 1, 3, 11), outlier_prob=0.2)
     nvar = 0
+    ncand = 0
     for key in sorted(keys, key=absstate.key_str):
         tree0 = absstate.build(key, data)
         try:
@@ -126,10 +127,74 @@ def graft_histories(ck, n=5):
             if got != vkey:
                 ck.violation("C07|graft_history|wrong_tree", "the tree built by %s from %s holds %s, expected %s" % (vname, absstate.key_str(key), absstate.key_str(got), absstate.key_str(vkey)),
                              {"state": absstate.to_json(key), "variant": vname})
+            else:
+                ncand += dp_candidates_on(ck, t, vname, key, n)
         ck.nontrivial("graft:" + absstate.key_str(key))
-    ck.evaluations += nvar
+    ck.evaluations += nvar + ncand
     ck.traces_validated += len(keys)
     ck.extra["graft_histories"] = nvar
+    ck.extra["dp_candidates_on_grafted_trees"] = ncand
+
+
+class _PickRNG(object):
+    """Stands in for the generator of DataPointSampler._sample_tree: the categorical draw returns the outcome asked for."""
+
+    def __init__(self):
+        self.pick = 0
+        self.width = None
+
+    def multinomial(self, n, q):
+        import numpy as np
+        self.width = len(q)
+        out = np.zeros(len(q), dtype=int)
+        out[self.pick % len(q)] = 1
+        return out
+
+
+def dp_candidates_on(ck, tree, vname, key, n):
+    """EVERY outcome of the data-point move for every movable data point of a tree whose clone names have gaps (it came
+    out of a subtree move): each must be a well-formed forest over the same data, and the input tree stays what it was."""
+    from phyclone.mcmc.gibbs_mh import DataPointSampler
+    from phyclone.tree import FSCRPDistribution, TreeJointDistribution
+    rng = _PickRNG()
+    sampler = DataPointSampler(TreeJointDistribution(FSCRPDistribution(1.0)), rng, outliers=True)
+    before = absstate.project(tree, full=True)[0]
+    labels = dict(tree.labels)
+    count = 0
+    for d, old in sorted(labels.items()):
+        if not (old == tree.outlier_node_name or tree.get_data_len(old) > 1):
+            continue
+        j = 0
+        while True:
+            rng.pick = j
+            ctx = {"state": absstate.to_json(key), "variant": vname, "data_point": d, "outcome": j}
+            try:
+                out = sampler._sample_tree(d, tree, old)
+            except Exception as ex:  # noqa
+                import traceback
+                if not any("/phyclone/" in f.filename for f in traceback.extract_tb(ex.__traceback__)):
+                    raise
+                ck.violation("C07|dp_on_grafted|exception", "the data-point move of point %d on the tree built by %s from %s raised %s: %s" % (d, vname, absstate.key_str(key), type(ex).__name__, ex), ctx)
+                break
+            count += 1
+            try:
+                got = absstate.project(out, full=True)[0]
+                if absstate.data_ids(got) != set(range(n)):
+                    ck.violation("C07|dp_on_grafted|data_not_conserved", "outcome %d of the data-point move of point %d on the tree built by %s from %s holds data %s" % (
+                        j, d, vname, absstate.key_str(key), absstate.key_str(got)), ctx)
+            except absstate.Inconsistent as ex:
+                ck.violation("C07|dp_on_grafted|malformed", "outcome %d of the data-point move of point %d on the tree built by %s from %s is not a well-formed forest: %s" % (
+                    j, d, vname, absstate.key_str(key), ex), ctx)
+            j += 1
+            if rng.width is None or j >= rng.width:
+                break
+    try:
+        after = absstate.project(tree, full=True)[0]
+        if after != before:
+            ck.violation("C07|dp_on_grafted|input_changed", "the data-point move changed its input tree (built by %s from %s) to %s" % (vname, absstate.key_str(key), absstate.key_str(after)), {"state": absstate.to_json(key), "variant": vname})
+    except absstate.Inconsistent as ex:
+        ck.violation("C07|dp_on_grafted|input_damaged", "the data-point move left its input tree (built by %s from %s) malformed: %s" % (vname, absstate.key_str(key), ex), {"state": absstate.to_json(key), "variant": vname})
+    return count
 
 
 def run(corrupt=None):
